@@ -293,6 +293,7 @@ func master() int {
 	sort.Strings(keys)
 	violations := 0
 	var lines []string
+	var unrepro []string
 	allKeys := append([]string{}, keys...)
 	if len(allKeys) > 3000 {
 		allKeys = allKeys[:3000]
@@ -318,7 +319,10 @@ func master() int {
 			}
 		}
 		if fails != 5 {
-			a.infra = append(a.infra, fmt.Sprintf("failure %q reproduced %d/5 times on replay: not reported as a violation", k, fails))
+			// the same scenario and schedule did not fail again: an artefact of something the harness does not own
+			// (real time under machine load), not a verdict about the code. Recorded, never reported as a violation.
+			unrepro = append(unrepro, fmt.Sprintf("%s (failed again %d/5 times on replay)", k, fails))
+			lines = append(lines, fmt.Sprintf("NOTE: %q did not fail again on replay (%d/5): not a verdict", k, fails))
 			continue
 		}
 		if kf, ok := known[k]; ok && kf.Status == "open" {
@@ -333,7 +337,7 @@ func master() int {
 
 	// ---- evidence --------------------------------------------------------------------
 	distinct := len(a.outcomes)
-	exhaustive := p.Exhaustive && !a.capped && !a.stats.Capped && len(a.infra) == 0 && a.scenarios == int64(total)
+	exhaustive := p.Exhaustive && !a.capped && !a.stats.Capped && len(a.infra) == 0 && len(unrepro) == 0 && a.scenarios == int64(total)
 	evals := a.stats.Executions
 	if a.evals > 0 {
 		evals += a.evals
@@ -373,6 +377,7 @@ func master() int {
 		"infrastructure_notes":          a.infra,
 		"known_findings_reported":       countPrefix(lines, "KNOWN-FINDING"),
 		"failing_classes":               len(a.failures),
+		"unreproducible_failures":       unrepro,
 		"failing_class_keys":            allKeys,
 	}
 	if a.stats.Nodes == 0 {
